@@ -48,6 +48,14 @@ def term_ctor_rules(ctx):
         return (py(t3.m(a, 'get_year')), py(t3.m(a, 'get_index')), t3.m(a, 'get_cursory_julian_day')) == (py(t3.m(b, 'get_year')), py(t3.m(b, 'get_index')), t3.m(b, 'get_cursory_julian_day'))
     table(ctx, 'CARRY', 'CARRY:SolarTerm::next==from_index', domt, step_vs_ctor, lambda x: True, 'next(n) and from_index(year, index+n) are the same term', str)
 
+    def term_ctor(x):
+        y, i = x
+        r = I3.call('SolarTerm::from_index', [y, i])
+        return (py(t3.m(r, 'get_year')), py(t3.m(r, 'get_index')), t3.m(r, 'get_cursory_julian_day') == t3.m(I3.call('SolarTerm::from_index', [(y * 24 + i) // 24, i % 24]), 'get_cursory_julian_day'))
+    table(ctx, 'CARRY', 'CARRY:SolarTerm::from_index', [(y, i) for y in (-1, 0, 1, 2023) for i in (-49, -25, -24, -1, 0, 23, 24, 25, 30, 47, 48, 49, 73)], term_ctor, lambda x: ((x[0] * 24 + x[1]) // 24, x[1] % 24, True),
+          'a term built with an index outside 0..23 is the term of the neighbouring year it names: year carried by floor, same day as the term built in normal form '
+          '(callers build the Jie of the twelfth sexagenary month as index 25, the scenario calendars replace this constructor by a stand-in)', str, fn_site(p, 'SolarTerm::from_index'))
+
 
 
 def run(ctx):
